@@ -306,6 +306,12 @@ def catalogue(tier="quick", mode="r1"):
                     [("a", "b", "ab"), ("b", "d", "die")],
                     F(1, 2), {"p0/a": [0, 50], "p0/b": [0, 8], "p0/d": [0], "p1/a": [20], "p1/b": [0, 1], "p1/d": [0]},
                     pops=("p0", "p1"), transfers=[("age", "p0", "p1", "number", [0, 10, 500]), ("mig", "p1", "p0", "duration", [F(1, 4), 5])], glob=False))
+    # 11b three populations: one transfer out of p0 entered in different units for its two destinations (a probability to p1, a number to p2)
+    S.append(struct("xfer3", [("a", "normal"), ("b", "normal")],
+                    [("ab", "probability", 1, [F(1, 2)])],
+                    [("a", "b", "ab")],
+                    F(1, 2), {"p0/a": [40], "p0/b": [0, 8], "p1/a": [20], "p1/b": [0], "p2/a": [4], "p2/b": [0]},
+                    pops=("p0", "p1", "p2"), transfers=[("mv", "p0", "p1", "probability", [F(1, 4)]), ("mv", "p0", "p2", "number", [0, 24])], glob=False))
     # 12 residual junction alone, fed by a source (births split into groups), proportions sum > 1 and < 1
     S.append(struct("resj", [("src", "source"), ("k", "resjunction"), ("a", "normal"), ("b", "normal"), ("c", "normal"), ("d", "sink")],
                     [("birth", "number", F(1, 12), [0, 1]), ("q1", "proportion", None, [0, F(1, 4), F(3, 4)]), ("q2", "proportion", None, [0, F(1, 2), 1]), ("die", "probability", 1, [F(1, 2), 9])],
